@@ -754,7 +754,7 @@ func checkAndPropagateArgs(
 		defineArgIdx++
 	}
 
-	if methodT.IsAnyType() {
+	if methodT.IsAnyType() && !methodT.IsBuiltinMethod() {
 		return nil
 	}
 
